@@ -180,6 +180,6 @@ def scan_model(name: str):  # noqa: ANN201
 SCAN_MODELS = {
     # name -> (scannable parameters, scannable variables)
     "S1": (["c", "k1", "k2"], ["x", "y"]),
-    "S2": (["kf", "kr"], ["x", "y"]),
+    "S2": (["kf", "kr", "tot"], ["x", "y"]),  # tot: a parameter DEFINED by an initial assignment; scanning it replaces the assignment by the row value
     "S3": (["c", "k1", "kd"], ["x", "y"]),
 }
